@@ -1,5 +1,201 @@
-import KatdalModel.Lemmas.CatBasic
+/-
+  C11 — Categorical container operations preserve the per-dump sequence as documented.
+
+  "For any categorical series, indexing by integer, slice, mask or list and comparing with a value
+   give the same answers as the explicit per-dump list of values; adding, removing, aligning,
+   partitioning, concatenating and de-duplicating events change that per-dump list exactly as
+   documented (partition followed by concatenation is the identity, removing repeats never changes
+   any dump's value, alignment only moves boundaries onto the given segment starts).  Every
+   operation leaves strictly increasing event boundaries that end at the number of dumps and
+   indices that refer to distinct unique values, including for array-valued and unhashable values."
+
+  Model (mirror of katdal/categorical.py, Part 1 and 3 of Model/Categorical.lean): `Cat`
+  (unique_values / indices / events), `Cat.new`, `lookup1`, `getitem`, `cmpPerDump`, `add`, `remove`,
+  `addUnmatched`, `align`, `partition`, `removeRepeats`, `concatenate`.
+  Spec: `Cat.perDump` (the explicit per-dump list, `none` before the first event) and `Cat.WF`.
+
+  Values are an arbitrary type with decidable equality: Python's `==`, hashing and dask tokenize
+  are assumed to agree (NaN is outside; the harness tests it for well-formedness only).
+  What is proved about the per-dump list: indexing, comparison, the constructor, remove_repeats,
+  concatenate, partition, partition ∘ concatenate, add, remove.  For add_unmatched and align the
+  theorems give well-formedness, the number of dumps and (align) boundaries ⊆ segment starts; their
+  per-dump effect is compared with the implementation by the harness only (said in the claim).
+-/
+import KatdalModel.Lemmas.CatWF
 open Np Categorical
+
 namespace C11
-theorem placeholder : (1 : Nat) = 1 := rfl
+
+variable {V : Type} [DecidableEq V]
+
+/-! ### the constructor -/
+
+/-- `CategoricalData(values, events)`: the per-dump list is the values written out segment by
+    segment (nothing before the first event), the indices refer to pairwise distinct unique
+    values; with strictly increasing events and one more event than values it is well-formed. -/
+theorem c11_new (vs : List V) (es : List Nat) (hlen : es.length = vs.length + 1) (hs : strictIncNat es = true) :
+    (Cat.new vs es).WF ∧
+    (Cat.new vs es).perDump = List.replicate (es.headD 0) none ++ expand es (vs.map some) := by
+  obtain ⟨w1, w2, w3⟩ := new_wf_parts vs es
+  exact ⟨⟨hs, by rw [new_ev, w3, hlen], w1, w2⟩, new_perDump vs es⟩
+
+/-! ### queries -/
+
+/-- **Indexing by integer, slice, mask or list gives the same answers as the explicit per-dump
+    list** (`specGetitem` reads the answer off `perDump`; IndexError exactly where the per-dump
+    list has no value), for every well-formed series and every key. -/
+theorem c11_getitem_perDump (c : Cat V) (h : c.WF) (key : Key) :
+    c.getitem key = specGetitem c.perDump key :=
+  getitem_perDump c h key
+
+/-- **Comparing with a value answers dump by dump on the per-dump list** (`==`, `!=`, `<`, … are
+    all `_bool_per_dump` of a predicate on the unique values), for every series. -/
+theorem c11_cmp_perDump (c : Cat V) (p : V → Bool) :
+    c.cmpPerDump p = c.perDump.map (fun o => o.map p) :=
+  cmp_perDump c p
+
+/-- the per-dump list has one entry per dump -/
+theorem c11_perDump_length (c : Cat V) (h : c.WF) : c.perDump.length = c.numDumps :=
+  perDump_length c h
+
+/-! ### mutators: effect on the per-dump list -/
+
+/-- **Removing repeats never changes any dump's value**; the result is well-formed, covers the
+    same dumps, keeps the unique values and has no equal neighbouring indices. -/
+theorem c11_remove_repeats (c : Cat V) (h : c.WF) (hne : c.idx ≠ []) :
+    ∃ c', c.removeRepeats = .ok c' ∧ c'.WF ∧ c'.perDump = c.perDump ∧ c'.numDumps = c.numDumps ∧
+      c'.uniq = c.uniq ∧ (∀ k x y, c'.idx[k]? = some x → c'.idx[k + 1]? = some y → x ≠ y) :=
+  removeRepeats_spec c h hne
+
+/-- **concatenate_categorical**: the per-dump list of the result is the concatenation of the
+    per-dump lists of the parts (series starting at dump 0), with or without repeat removal; the
+    result is well-formed, starts at dump 0 and covers the sum of the dumps. -/
+theorem c11_concatenate (parts : List (Cat V)) (hparts : ∀ p ∈ parts, p.Part) (hne : parts ≠ []) (rep : Bool) :
+    ∃ c, concatenate parts rep = .ok c ∧ c.Part ∧
+      c.perDump = (parts.map Cat.perDump).flatten ∧ c.numDumps = (parts.map Cat.numDumps).sum :=
+  concat_spec parts hparts hne rep
+
+/-- **partition**: every part is well-formed, starts at dump 0 and shares the unique values; the
+    per-dump lists of the parts are the consecutive slices of the parent's per-dump list. -/
+theorem c11_partition (c : Cat V) (h : c.Part) (s0 : Nat) (ss : List Nat)
+    (hs : (s0 :: ss).Pairwise (· < ·)) (hN : (s0 :: ss).getLastD 0 ≤ c.numDumps) :
+    ∃ parts, c.partition (s0 :: ss) = .ok parts ∧
+      (∀ p ∈ parts, p.Part ∧ p.uniq = c.uniq) ∧ parts.length = ss.length ∧
+      (parts.map Cat.perDump).flatten = (c.perDump.drop s0).take ((s0 :: ss).getLastD 0 - s0) :=
+  partition_spec c h s0 ss hs hN
+
+/-- one part of a partition is exactly the slice `[start, stop)` of the per-dump list -/
+theorem c11_partition_segment (c : Cat V) (h : c.Part) (start stop : Nat) (hlt : start < stop)
+    (hN : stop ≤ c.numDumps) :
+    ∃ part : Cat V, part.Part ∧ part.uniq = c.uniq ∧ part.numDumps = stop - start ∧
+      part.perDump = (c.perDump.drop start).take (stop - start) ∧
+      ∀ (more : List Nat), Cat.partition.go c c.ev.dropLast (start :: stop :: more) =
+        (do let r ← Cat.partition.go c c.ev.dropLast (stop :: more); pure (part :: r)) :=
+  segment_spec c h start stop hlt hN
+
+/-- **Partition followed by concatenation is the identity** on the per-dump list (with or
+    without repeat removal). -/
+theorem c11_partition_concat_id (c : Cat V) (h : c.Part) (s1 : Nat) (ss : List Nat)
+    (hs : (0 :: s1 :: ss).Pairwise (· < ·)) (hN : (0 :: s1 :: ss).getLastD 0 = c.numDumps) (rep : Bool) :
+    ∃ parts c', c.partition (0 :: s1 :: ss) = .ok parts ∧ concatenate parts rep = .ok c' ∧
+      c'.Part ∧ c'.perDump = c.perDump ∧ c'.numDumps = c.numDumps :=
+  partition_concat_id c h s1 ss hs hN rep
+
+/-- **Alignment only moves boundaries onto the given segment starts.** -/
+theorem c11_align_boundaries (c : Cat V) (segs : List Nat) (c' : Cat V) (h : c.align segs = .ok c') :
+    ∀ e ∈ c'.ev, e ∈ segs :=
+  align_boundaries c segs c' h
+
+/-! ### every operation keeps the series well-formed -/
+
+theorem c11_add_wf (c : Cat V) (h : c.WF) (e : Nat) (value : Option V) (he : e < c.numDumps) (c' : Cat V)
+    (hadd : c.add e value = .ok c') : c'.WF ∧ c'.numDumps = c.numDumps :=
+  add_wf c h e value he c' hadd
+
+theorem c11_remove_wf (c : Cat V) (h : c.WF) (v : V) (c' : Cat V) (hrem : c.remove v = .ok c') :
+    c'.WF ∧ c'.numDumps = c.numDumps ∧ c'.ev.Sublist c.ev :=
+  remove_wf c h v c' hrem
+
+theorem c11_add_unmatched_wf (c : Cat V) (h : c.WF) (segs : List Nat) (dist : Nat) (c' : Cat V)
+    (hau : c.addUnmatched segs dist = .ok c') : c'.WF ∧ c'.numDumps = c.numDumps :=
+  addUnmatched_wf c h segs dist c' hau
+
+theorem c11_align_wf (c : Cat V) (h : c.WF) (segs : List Nat) (c' : Cat V) (hal : c.align segs = .ok c') :
+    c'.WF :=
+  align_wf c h segs c' hal
+
+/-- one documented operation inside its domain -/
+inductive Step : Cat V → Cat V → Prop
+  | add (c c' : Cat V) (e : Nat) (v : Option V) : e < c.numDumps → c.add e v = .ok c' → Step c c'
+  | remove (c c' : Cat V) (v : V) : c.remove v = .ok c' → Step c c'
+  | addUnmatched (c c' : Cat V) (segs : List Nat) (d : Nat) : c.addUnmatched segs d = .ok c' → Step c c'
+  | align (c c' : Cat V) (segs : List Nat) : c.align segs = .ok c' → Step c c'
+  | removeRepeats (c c' : Cat V) : c.idx ≠ [] → c.removeRepeats = .ok c' → Step c c'
+  | partitionPart (c : Cat V) (parts : List (Cat V)) (p : Cat V) (s0 : Nat) (ss : List Nat) :
+      c.Part → (s0 :: ss).Pairwise (· < ·) → (s0 :: ss).getLastD 0 ≤ c.numDumps →
+      c.partition (s0 :: ss) = .ok parts → p ∈ parts → Step c p
+  | concat (c c' : Cat V) (others : List (Cat V)) (rep : Bool) :
+      c.Part → (∀ p ∈ others, p.Part) → concatenate (c :: others) rep = .ok c' → Step c c'
+
+inductive Reach : Cat V → Cat V → Prop
+  | refl (c : Cat V) : Reach c c
+  | step (a b c : Cat V) : Reach a b → Step b c → Reach a c
+
+/-- **Every operation sequence leaves a well-formed series**: strictly increasing event
+    boundaries, one index per segment, indices inside the unique values, unique values pairwise
+    distinct — for every history of add / remove / add_unmatched / align / remove_repeats /
+    partition (taking a part) / concatenate from a well-formed start. -/
+theorem c11_reachable_wf (c c' : Cat V) (h : c.WF) (r : Reach c c') : c'.WF := by
+  induction r with
+  | refl => exact h
+  | step b d _ hs ih =>
+    cases hs with
+    | add e v he ha => exact (add_wf b ih e v he d ha).1
+    | remove v hr => exact (remove_wf b ih v d hr).1
+    | addUnmatched segs dd ha => exact (addUnmatched_wf b ih segs dd d ha).1
+    | align segs ha => exact align_wf b ih segs d ha
+    | removeRepeats hne hr =>
+      obtain ⟨x, hx, hw, _⟩ := removeRepeats_spec b ih hne
+      rw [hx] at hr
+      simp only [Except.ok.injEq] at hr
+      subst hr; exact hw
+    | partitionPart parts s0 ss hp hs hN hpart hmem =>
+      obtain ⟨ps, hps, hall, _⟩ := partition_spec b hp s0 ss hs hN
+      rw [hps] at hpart
+      simp only [Except.ok.injEq] at hpart
+      subst hpart
+      exact (hall d hmem).1.1
+    | concat others rep hp hothers hc =>
+      obtain ⟨x, hx, hxp, _⟩ := concat_spec (b :: others) (by
+        intro p hp'
+        rcases List.mem_cons.mp hp' with rfl | hp'
+        · exact hp
+        · exact hothers p hp') (by simp) rep
+      rw [hx] at hc
+      simp only [Except.ok.injEq] at hc
+      subst hc; exact hxp.1
+
+/-! ### Non-vacuity -/
+
+-- values 3,4,3,5 on events 0,2,5,6,9: unique values in order of appearance, per-dump list
+example : Cat.new [3, 4, 3, 5] [0, 2, 5, 6, 9] = { uniq := [3, 4, 5], idx := [0, 1, 0, 2], ev := [0, 2, 5, 6, 9] } := by
+  decide
+example : (Cat.new [3, 4, 3, 5] [0, 2, 5, 6, 9]).perDump =
+    [some 3, some 3, some 4, some 4, some 4, some 3, some 5, some 5, some 5] := by decide
+example : (Cat.new [3, 4, 3, 5] [0, 2, 5, 6, 9]).getitem (.slice none none (some 2)) = .ok (.many [3, 4, 4, 5, 5]) := by
+  decide
+example : (Cat.new [3, 4, 3, 5] [0, 2, 5, 6, 9]).getitem (.int (-1)) = .error .index := by decide
+-- partition at 0,4,9 then concatenation gives the per-dump list back
+example : ((Cat.new [3, 4, 3, 5] [0, 2, 5, 6, 9]).partition [0, 4, 9]).map (fun ps => ps.map Cat.perDump) =
+    .ok [[some 3, some 3, some 4, some 4], [some 4, some 3, some 5, some 5, some 5]] := by decide
+example : (do let ps ← (Cat.new [3, 4, 3, 5] [0, 2, 5, 6, 9]).partition [0, 4, 9]
+              let c ← concatenate ps false
+              pure c.perDump) = .ok (Cat.new [3, 4, 3, 5] [0, 2, 5, 6, 9]).perDump := by decide
+-- remove the first value: the first dumps lose their value, later segments merge
+example : ((Cat.new [3, 4, 3, 5] [0, 2, 5, 6, 9]).remove 3).map Cat.perDump =
+    .ok [none, none, some 4, some 4, some 4, some 4, some 5, some 5, some 5] := by decide
+-- align moves 2 -> 3, 5 and 6 -> 6 (only the last event landing on 6 is kept)
+example : ((Cat.new [3, 4, 3, 5] [0, 2, 5, 6, 9]).align [0, 3, 6, 9]).map (fun c => (c.ev, c.perDump)) =
+    .ok ([0, 3, 6, 9], [some 3, some 3, some 3, some 4, some 4, some 4, some 5, some 5, some 5]) := by decide
+
 end C11
